@@ -76,6 +76,7 @@ type Resp struct {
 	Hdr          map[string][]string `json:"hdr"`
 	Body         string              `json:"body,omitempty"`
 	HandlerCalls int                 `json:"handler_calls"`
+	ExtraWrites  int                 `json:"superfluous_writeheader_calls,omitempty"` // WriteHeader calls beyond the first
 }
 
 // Sig is a canonical rendering of a response used for equality tests.
@@ -87,6 +88,9 @@ func (r Resp) Sig() string {
 	sort.Strings(keys)
 	var b strings.Builder
 	fmt.Fprintf(&b, "%d|h%d|", r.Status, r.HandlerCalls)
+	if r.ExtraWrites > 0 {
+		fmt.Fprintf(&b, "superfluous-WriteHeader-calls=%d|", r.ExtraWrites)
+	}
 	for _, k := range keys {
 		b.WriteString(k)
 		b.WriteByte('=')
@@ -115,7 +119,7 @@ func Serve(h http.Handler, calls *int, req Req, preset map[string][]string) Resp
 	if st == 0 {
 		st = 200
 	}
-	res := Resp{Status: st, Hdr: map[string][]string{}, Body: string(rec.Body)}
+	res := Resp{Status: st, Hdr: map[string][]string{}, Body: string(rec.Body), ExtraWrites: max(0, rec.WroteN-1)}
 	for k, v := range rec.H {
 		if len(v) == 0 {
 			continue // a key with zero values produces no field line on the wire
